@@ -140,8 +140,8 @@ def serializer_contracts():
     RGS = "csvpath/managers/results/results_registrar.py"
     CF["ResultsRegistrar"] = {**CF.get("ResultsRegistrar", {}), "run_dir": "val", "pathsname": "val", "csvpaths": "obj:CsvPaths", "g_manifest_dict": "dict[str,val]"}
     CF["CsvPaths"].update({"g_run_completions": "int", "g_completed_run_home": "val", "g_completed_pathsname": "val", "g_completed_results": "val"})
-    CF["ResultsMetadata"] = {"run_home": "val", "named_paths_name": "val", "named_results_name": "val", "archive_name": "val", "named_file_fingerprint": "val",
-                             "named_file_fingerprint_on_file": "val", "named_file_name": "val", "named_file_path": "val"}
+    CF["ResultsMetadata"].update({"run_home": "val", "named_paths_name": "val", "named_results_name": "val", "archive_name": "val", "named_file_fingerprint": "val",
+                             "named_file_fingerprint_on_file": "val", "named_file_name": "val", "named_file_path": "val"})
     iface(f"{RGS}::ResultsRegistrar.__init__", {"csvpaths": "obj:CsvPaths", "run_dir": "val", "pathsname": "val", "results": "val"},
           modifies=["self.csvpaths", "self.run_dir", "self.pathsname", "self.results"],
           ensures={"c": "self.csvpaths is csvpaths", "d": "same(self.run_dir, run_dir)", "p": "same(self.pathsname, pathsname)", "r": "same(self.results, results)"},
